@@ -139,6 +139,14 @@ def read_args(call, cx):
             return ty_expr(f.args[1], cx), expr(f.args[0], cx), flag("skip_head"), flag("increment")
         if tmpl.startswith("{}") and len(tmpl) == 3 and tmpl[2] in TYS and len(f.args) == 1:
             return ".%s" % tmpl[2], expr(f.args[0], cx), flag("skip_head"), flag("increment")
+    if isinstance(f, ast.JoinedStr):
+        # f"{n}d" / f"{n}{ty}": the same two shapes written as f-strings
+        parts = f.values
+        plain = lambda v: isinstance(v, ast.FormattedValue) and v.conversion == -1 and v.format_spec is None  # noqa: E731
+        if len(parts) == 2 and plain(parts[0]) and isinstance(parts[1], ast.Constant) and parts[1].value in TYS:
+            return ".%s" % parts[1].value, expr(parts[0].value, cx), flag("skip_head"), flag("increment")
+        if len(parts) == 2 and plain(parts[0]) and plain(parts[1]):
+            return ty_expr(parts[1].value, cx), expr(parts[0].value, cx), flag("skip_head"), flag("increment")
     raise GiveUp("fmt: " + ast.unparse(f))
 
 
@@ -282,14 +290,21 @@ def byte_size():
     src = _src("io/utils.py")
     tree = ast.parse(src)
     table = None
-    for node in ast.walk(tree):
-        if isinstance(node, ast.FunctionDef) and node.name == "read_binary_data":
-            for sub in ast.walk(node):
-                if isinstance(sub, ast.Assign) and any(isinstance(t, ast.Name) and t.id == "byte_size" for t in sub.targets):
-                    try:
-                        table = ast.literal_eval(sub.value)
-                    except Exception as e:  # noqa: BLE001
-                        raise ExtractMiss("byte_size not a literal") from e
+    # the table of item sizes: a dict literal {type letter: bytes} assigned anywhere in io/utils.py (inside
+    # read_binary_data as `byte_size`, or hoisted to a module constant under another name)
+    cands = []
+    for sub in ast.walk(tree):
+        if isinstance(sub, ast.Assign) and isinstance(sub.value, ast.Dict):
+            try:
+                d = ast.literal_eval(sub.value)
+            except Exception:  # noqa: BLE001
+                continue
+            if isinstance(d, dict) and {"b", "i", "d"} <= set(d) and all(isinstance(k, str) and len(k) == 1 and isinstance(v, int) for k, v in d.items()):
+                cands.append(d)
+    if len(cands) == 1 or (cands and all(c == cands[0] for c in cands)):
+        table = cands[0]
+    elif cands:
+        raise ExtractMiss("several different byte-size tables")
     if not isinstance(table, dict):
         raise ExtractMiss("byte_size not found")
     rows = "\n".join(f'  | "{k}" => {int(v)}' for k, v in table.items())
